@@ -14,7 +14,7 @@ from vf import textgen
 
 BASE = frozenset(
     "list olist quote atx emph code hr task listpad lazy blanklines tightjoin spaces strike alert cjk escape entity fenced "
-    "setext reflink fnref tagline hardbreak link table refdef".split()
+    "setext reflink fnref tagline hardbreak link table refdef heading_in_quote".split()
 )
 
 
